@@ -18,7 +18,7 @@ from ..tlc import run_tlc, parse_obl
 from .. import impl
 
 PID = 'C04'
-SHEETS = ['SHEET1', 'DATA 2', 'S.3']
+SHEETS = ['SHEET1', 'DATA 2', 'S.3', "IT'S"]
 BOOKS = ['BOOK.XLSX', 'OTHER.XLSX', '2020 DATA.XLSX']
 
 
@@ -79,7 +79,9 @@ def render(sp):
     ss, bs, sh, bk = sp['ss'], sp['bs'], sp['sh'], sp['bk']
     sheet = SHEETS[sh]
     low = ss in ('lower', 'quotedlower')
-    sname = sheet.lower() if low else sheet
+    sname = (sheet.lower() if low else sheet).replace("'", "''")   # doubled inside quotes
+    if "'" in sheet and ss in ('plain', 'lower'):
+        return None             # such a title cannot be written without quotes
     if ss == 'none':
         return ref
     if bs == 'none':
